@@ -255,3 +255,69 @@ pub proof fn lemma_dedup_sorted_ord<A: Ord>(s: Seq<A>)
         }
     }
 }
+
+// ---- sorting / dedup leave a strictly sorted vector unchanged (proved) ------------------------------
+pub proof fn lemma_multiset_drop_last<A>(s: Seq<A>)
+    requires s.len() > 0
+    ensures s.to_multiset() == s.drop_last().to_multiset().insert(s.last())
+{
+    broadcast use vstd::seq_lib::group_to_multiset_ensures;
+    assert(s =~= s.drop_last().push(s.last()));
+}
+
+pub proof fn lemma_sorted_perm_unique<A: Ord>(v: Seq<A>, t: Seq<A>)
+    requires lawful_ord::<A>(), eq_is_ord_equal::<A>(), strictly_sorted(v), sorted_le(t), perm(t, v)
+    ensures t == v
+    decreases v.len()
+{
+    lemma_perm_len(t, v);
+    if v.len() == 0 {
+        assert(t =~= v);
+    } else {
+        reveal(lawful_ord);
+        reveal(strictly_sorted);
+        let n = v.len() as int;
+        // the last elements coincide: each is >= the other
+        lemma_perm_contains(t, v, n - 1);
+        let j = choose|j: int| 0 <= j < t.len() && t[j] == v[n - 1];
+        assert(le(t[j], t[n - 1]));
+        lemma_perm_contains(v, t, n - 1);
+        let i = choose|i: int| 0 <= i < v.len() && v[i] == t[n - 1];
+        if i < n - 1 { assert(lt(v[i], v[n - 1])); }
+        assert(le(t[n - 1], v[n - 1]));
+        assert(le(v[n - 1], t[n - 1]));
+        assert(eqv(v[n - 1], t[n - 1]));
+        assert(v[n - 1] == t[n - 1]);
+        // remove them and recurse
+        lemma_multiset_drop_last(v);
+        lemma_multiset_drop_last(t);
+        let (v2, t2) = (v.drop_last(), t.drop_last());
+        assert(v2.to_multiset() =~= v.to_multiset().remove(v.last())) by { assert(v2.to_multiset().insert(v.last()).remove(v.last()) =~= v2.to_multiset()); }
+        assert(t2.to_multiset() =~= t.to_multiset().remove(t.last())) by { assert(t2.to_multiset().insert(t.last()).remove(t.last()) =~= t2.to_multiset()); }
+        assert(perm(t2, v2));
+        assert(strictly_sorted(v2)) by { assert forall|a: int, b: int| 0 <= a < b < v2.len() implies lt(v2[a], v2[b]) by { assert(v2[a] == v[a] && v2[b] == v[b]); } }
+        assert(sorted_le(t2)) by { assert forall|a: int, b: int| 0 <= a <= b < t2.len() implies le(#[trigger] t2[a], #[trigger] t2[b]) by { assert(t2[a] == t[a] && t2[b] == t[b]); } }
+        lemma_sorted_perm_unique(v2, t2);
+        assert(t =~= t2.push(t.last()));
+        assert(v =~= v2.push(v.last()));
+    }
+}
+
+pub proof fn lemma_dedup_strict<A: Ord>(s: Seq<A>)
+    requires lawful_ord::<A>(), eq_is_ord_equal::<A>(), strictly_sorted(s)
+    ensures dedup_spec(s) == s
+    decreases s.len()
+{
+    reveal(lawful_ord);
+    reveal(strictly_sorted);
+    if s.len() <= 1 {
+    } else {
+        let t = s.drop_last();
+        assert(strictly_sorted(t)) by { assert forall|a: int, b: int| 0 <= a < b < t.len() implies lt(t[a], t[b]) by { assert(t[a] == s[a] && t[b] == s[b]); } }
+        lemma_dedup_strict(t);
+        assert(lt(s[s.len() - 2], s[s.len() - 1]));
+        assert(!eqv(s[s.len() - 2], s[s.len() - 1]));
+        assert(s[s.len() - 2] != s[s.len() - 1]);
+        assert(s =~= t.push(s.last()));
+    }
+}
